@@ -70,6 +70,13 @@ var gens = []generator{
 	{file: "SeqConcat.lean", src: "sequence.go (Concat)", run: genSeqConcat},
 	{file: "SeqReverse.lean", src: "sequence.go (Reverse)", run: genSeqReverse},
 	{file: "SeqComplement.lean", src: "nucleotide.go (replaceBytes, Complement, Transcribe)", run: genSeqComplement},
+	{file: "CliList.lean", src: "(fixed prelude of the CLI-step / locator translator: checked slice operations, map-as-set, sort.Ints, strings.IndexByte)", run: genCliList},
+	{file: "CliDelete.lean", src: "cmd/gts/delete.go (the per-record step)", run: genCliDelete},
+	{file: "CliInsert.lean", src: "cmd/gts/insert.go, infix.go (the per-record steps)", run: genCliInsert},
+	{file: "CliSplit.lean", src: "cmd/gts/split.go (the per-record step)", run: genCliSplit},
+	{file: "CliRotate.lean", src: "cmd/gts/rotate.go (the per-record step)", run: genCliRotate},
+	{file: "CliExtract.lean", src: "cmd/gts/extract.go (containsRegion, the per-record step)", run: genCliExtract},
+	{file: "Locator.lean", src: "locator.go (the locator constructors, tryLocation, AsLocator)", run: genLocator},
 }
 
 func writeIfChanged(path string, content []byte) (bool, error) {
